@@ -81,6 +81,7 @@ class Contract:
     display: tuple = ()                       # names of display-only locals (statements writing only these are dropped)
     locals: dict = field(default_factory=dict)        # local name -> type string where inference needs help
     abstract: bool = False                    # contract of an abstract method (no body to verify)
+    ignored_kwargs: tuple = None              # with varargs on a TRUSTED contract: the only extra keywords the assumed contract is valid for (None = any)
     varargs: bool = False                     # extra positional/keyword arguments at call sites are ignored (opaque)
     at_call: dict = field(default_factory=dict)       # callee name -> [Clause] asserted in the caller just before each such call
     ghost_after: dict = field(default_factory=dict)   # callee name -> {ghost path: expr}: ghost update performed right after each such call (`result` bound)
